@@ -213,9 +213,20 @@ def _torch_lm_chunk(cases):
         for t in range(T):
             x[t, (seed + t) % len(CH)] = 1.0
         logits = np.log(x / x.sum(axis=1, keepdims=True))
-        dec = D.CTCPrefixLogRawNumpyDecoder(CH + [D.BLANK_SYMBOL], k=k, lm=LMWrapper(lm, CH, torch.device('cpu')), lm_scale=scale)
+        wrapper = LMWrapper(lm, CH, torch.device('cpu'))
+        dec = D.CTCPrefixLogRawNumpyDecoder(CH + [D.BLANK_SYMBOL], k=k, lm=wrapper, lm_scale=scale)
         out['evaluations'] += 1
         try:
+            # "from the given start state": the caller's start state is an argument, not scratch space - the same state object
+            # handed in twice (beam widths 1 and k) gives the same scores twice
+            for kk in (1, k):
+                dk = D.CTCPrefixLogRawNumpyDecoder(CH + [D.BLANK_SYMBOL], k=kk, lm=wrapper, lm_scale=scale)
+                h0 = wrapper.initial_h_from_line('ab')
+                two = [sorted((h.transcript, round(float(h.lm_sc), 6)) for h in dk(logits, init_h=h0)) for _ in range(2)]
+                if two[0] != two[1]:
+                    out['failures'].append({'clause': 'lm-score-is-own-score', 'input': {'seed': seed, 'lstm_layers': layers, 'k': kk, 'scale': scale, 'init_state': 'reused'},
+                                            'observed': 'decoding twice from the same supplied start state (beam width %d): %r, then %r' % (kk, two[0][:2], two[1][:2])})
+                    break
             boh = dec(logits)
             hyps = list(boh)
             if any(len(h.transcript) >= 3 for h in hyps):
